@@ -120,7 +120,7 @@ pub mod hex {
             r.is_ok() ==> r.unwrap()@ == hex_dec(data@).unwrap(),
     { unimplemented!() }
 }
-pub use hex::{hex_enc, hex_dec, FromHexError};
+pub use hex::{hex_enc, hex_dec, FromHexError, axiom_hex_roundtrip, axiom_hex_alphabet};
 
 // ---- R12: `==` / `!=` on byte slices and arrays ---------------------------------
 /// R12: `$a != $b` for `$a, $b: &[u8]` (core::slice::cmp PartialEq: element-wise).
